@@ -1,7 +1,7 @@
 //! oxh — correspondence harness: runs the real oxidize-pdf code on generated cases and
 //! writes Coq case files (evaluated against the Gallina models by the driver).
 mod util;
-mod c29;
+include!(concat!(env!("OUT_DIR"), "/props.rs"));
 
 use util::Ctx;
 
@@ -24,11 +24,8 @@ fn main() {
     if std::env::var("OXH_PANIC_TRACE").is_err() {
         std::panic::set_hook(Box::new(|_| {}));
     }
-    match ctx.prop.as_str() {
-        "c29" => c29::run(&ctx),
-        p => {
-            eprintln!("unknown property {p}");
-            std::process::exit(2);
-        }
+    if !dispatch(&ctx) {
+        eprintln!("unknown property {}", ctx.prop);
+        std::process::exit(2);
     }
 }
